@@ -97,14 +97,14 @@ struct SyncRun : NodeEnv {
 Plan gen_sync(Rng &r, bool thorough) {
     Plan p; uint32_t f = r.pick<uint32_t>({1000, 1000, 10000, 100, 2000, 100000, 3000, 1500, 300, 7000}); p.cfg["freq"] = f; p.cfg["tight"] = r.chance(1, 4); uint32_t minus = (f <= 10000 ? (10000 + f - 1) / f : 1) * 100;
     auto cyc = [&]() -> int64_t { int c = (int)r.below(10); if (c == 0) return 0; if (c == 1) return (int64_t)r.range(1, (int64_t)minus - 1 > 0 ? (int64_t)minus - 1 : 1); if (c == 2) return minus; if (c == 3) return (int64_t)minus * r.range(1, 50) + (r.chance(1, 3) ? 50 : 0); if (c == 4) return r.pick<int64_t>({7000000, 10000000, 6553600, 6553500}); return (int64_t)minus * r.pick<int64_t>({1, 2, 3, 5, 10, 20, 100}); };
-    p.cfg["cobid"] = (r.chance(1, 2) ? 0x40000000ll : 0) | r.pick<int64_t>({0x80, 0x80, 0x90, 0x100}); p.cfg["cycle"] = cyc(); p.cfg["ttype"] = r.range(1, 3);
+    p.cfg["cobid"] = (r.chance(1, 2) ? 0x40000000ll : 0) | (r.chance(1, 5) ? 0x80000000ll : 0) | r.pick<int64_t>({0x80, 0x80, 0x90, 0x100}); p.cfg["cycle"] = cyc(); p.cfg["ttype"] = r.range(1, 3);
     int n = (int)r.range(3, thorough ? 50 : 25);
     for (int i = 0; i < n; i++) {
         int c = (int)r.below(20);
         if (c < 6) p.ops.push_back(Op("tick", {r.chance(1, 10) ? (int64_t)((uint64_t)r.pick<int64_t>({7, 10}) * f) : r.chance(1, 2) ? r.range(1, 5) : (int64_t)((uint64_t)minus * (uint64_t)r.pick<int64_t>({1, 2, 3, 5, 10, 20, 100}) * f / 1000000) + (int64_t)r.below(2)}));
         else if (c < 10) p.ops.push_back(Op("sync", {(int64_t)(r.chance(3, 5) ? 0 : r.range(1, 3)), (int64_t)r.below(4)}));
         else if (c < 13) p.ops.push_back(Op("w1006", {cyc()}));
-        else if (c < 17) p.ops.push_back(Op("w1005", {(r.chance(1, 2) ? 0x40000000ll : 0) | r.pick<int64_t>({0x80, 0x80, 0x90, 0x100, 0x81})}));
+        else if (c < 17) p.ops.push_back(Op("w1005", {(r.chance(1, 2) ? 0x40000000ll : 0) | (r.chance(1, 4) ? 0x80000000ll : 0) | r.pick<int64_t>({0x80, 0x80, 0x90, 0x100, 0x81})}));   // bit 31 of 1005h is a don't-care bit of CiA 301: stored as written, without any effect
         else if (r.chance(1, 4)) p.ops.push_back(r.chance(1, 2) ? Op("sendfail", {r.range(1, 3)}) : Op("lostsync", {(int64_t)r.below(2)}));
         else p.ops.push_back(Op("nmt", {r.pick<int64_t>({1, 1, 2, 128, 129, 130})}));
     }
